@@ -110,17 +110,47 @@ type Ctx struct {
 	property string
 	space    string
 	index    uint64
-	seen     map[uint64]struct{}
+	seen     *u64set
 	classes  map[string]int
 	progress []byte // mmap'd
 }
 
-const seenCap = 6_000_000
+// u64set is a fixed-capacity open-addressing set of non-zero digests; when it
+// is half full further digests are not recorded (and not counted as distinct:
+// the distinct count is then a conservative under-count).
+type u64set struct {
+	slots []uint64
+	mask  uint64
+	n     int
+}
+
+func newU64set(bits uint) *u64set { return &u64set{mask: 1<<bits - 1} }
+
+func (s *u64set) add(d uint64) bool {
+	if s.slots == nil {
+		s.slots = make([]uint64, s.mask+1)
+	}
+	i := (d * 0x9E3779B97F4A7C15) >> 17 & s.mask
+	for {
+		switch s.slots[i] {
+		case d:
+			return false
+		case 0:
+			if s.n >= len(s.slots)/2 {
+				return false
+			}
+			s.slots[i] = d
+			s.n++
+			return true
+		}
+		i = (i + 1) & s.mask
+	}
+}
 
 // NewCtx makes a fresh accumulator.
 func NewCtx(property, tier string, seed int64) *Ctx {
 	return &Ctx{Tier: tier, Seed: seed, property: property, Outcomes: map[string]uint64{},
-		Notes: map[string]uint64{}, Info: map[string]string{}, seen: map[uint64]struct{}{}, classes: map[string]int{}}
+		Notes: map[string]uint64{}, Info: map[string]string{}, seen: newU64set(23), classes: map[string]int{}}
 }
 
 // Case counts one executed case. digest identifies the concrete input (0 =
@@ -131,11 +161,8 @@ func (c *Ctx) Case(digest uint64, nontrivial bool, outcome string) {
 	if nontrivial {
 		if digest == 0 {
 			c.Nontrivial++
-		} else if len(c.seen) < seenCap {
-			if _, ok := c.seen[digest]; !ok {
-				c.seen[digest] = struct{}{}
-				c.Nontrivial++
-			}
+		} else if c.seen.add(digest) {
+			c.Nontrivial++
 		}
 	}
 	if len(c.Outcomes) < 400 || c.Outcomes[outcome] > 0 {
